@@ -252,6 +252,9 @@ func SpecMatch(pattern string, hasWild bool, s string) bool {
 //@   ensures result != nil
 //@   assigns nothing
 
+//@ func mq.Client.Close
+//@   trusted
+//@   assigns nothing
 //@ func mq.Client.Subscribe
 //@   trusted
 //@   defers cb
